@@ -26,11 +26,14 @@ def metric(j, n, tail=None):
     """metric emitted by operation j: n copies of a letter that identifies j; with [tail], the last byte is that one
     (a space, a tab, a carriage return: a metric's bytes are the writer's to carry, not to tidy)"""
     m = bytes([0x61 + (j % 26)]) * n
-    return m[:-1] + tail if tail and n >= 2 else m
+    return m[:-len(tail)] + tail if tail and n > len(tail) else m
 
 
-def rand_tail(rng):
-    return rng.choice([b" ", b"\t", b"\r", b"\x0b"]) if rng.random() < 0.12 else None
+def rand_tail(rng, ending=b""):
+    """a metric may end in anything - white space, a line feed, the very bytes of the writer's line terminator"""
+    if rng.random() >= 0.14:
+        return None
+    return rng.choice([b" ", b"\t", b"\r", b"\x0b", b"\n", b"\n"] + ([ending, ending] if ending else []))
 
 
 def mk_case(cap, ending, ops, script):
@@ -93,7 +96,7 @@ def gen_boundary(rng, n, faults):
             target = rng.choice([left - el - 1, left - el, left - el + 1, cap - el, cap - el + 1, cap - el - 1,
                                  cap, cap + 1, 0, 1, rng.randint(0, max(1, cap))])
             ln = max(0, target)
-            ops.append(("E", metric(j, ln, rand_tail(rng))))
+            ops.append(("E", metric(j, ln, rand_tail(rng, unhex(e)))))
             if ln + el > cap:
                 pass
             elif ln + el > left:
@@ -229,7 +232,7 @@ def gen_random(rng, n, faults, maxops=200):
                 ops.append(("F",))
             else:
                 ln = rng.choice([rng.randint(0, cap + 2), rng.randint(0, max(1, cap // 3)), rng.randint(0, 40)])
-                ops.append(("E", metric(j, ln, rand_tail(rng))))
+                ops.append(("E", metric(j, ln, rand_tail(rng, unhex(e)))))
         sc = []
         if faults:
             k = 0
@@ -291,9 +294,11 @@ def parse_obs(obs):
 
 def segment(data, lines, used):
     """ids of the complete lines [data] is the concatenation of, or None.  [lines] maps id -> line bytes.
-    Among metrics with identical bytes the oldest one not yet written successfully ([used]) is chosen
-    (falling back to an already written one, which the exactly-once clause then reports); zero-length
-    lines match only an empty write."""
+    Metrics may contain or end in the terminator, so a datagram can have several readings ("jjj\n\n" is the line of
+    "jjj\n", or the lines of "jjj" and ""): the reading that re-uses the fewest metrics already written successfully
+    ([used]) is taken (dynamic programme over the positions; ties: longest line first).  Among metrics with
+    identical bytes the oldest one not yet written is chosen (falling back to an already written one, which the
+    exactly-once clause then reports); zero-length lines match only an empty write."""
     if not data:
         ids = [i for i, ln in sorted(lines.items()) if not ln]
         return ids[:1] if ids else None
@@ -301,20 +306,34 @@ def segment(data, lines, used):
     for i, ln in sorted(lines.items()):
         if ln:
             byline.setdefault(ln, []).append(i)
+    fresh = {ln: sum(1 for i in ids if i not in used) for ln, ids in byline.items()}
+    byfirst = {}
+    for ln in byline:
+        byfirst.setdefault(ln[0], []).append(ln)
+    n = len(data)
+    best = [None] * (n + 1)
+    best[n] = (0, None)
+    for pos in range(n - 1, -1, -1):
+        b = None
+        for ln in byfirst.get(data[pos], ()):
+            nxt = best[pos + len(ln)] if pos + len(ln) <= n else None
+            if nxt is not None and data.startswith(ln, pos):
+                cost = nxt[0] + (0 if fresh[ln] > 0 else 1)
+                if b is None or cost < b[0] or (cost == b[0] and len(ln) > len(b[1])):
+                    b = (cost, ln)
+        best[pos] = b
+    if best[0] is None:
+        return None
     out = []
     pos = 0
     mine = set()
-    while pos < len(data):
-        best = None
-        for ln, ids in byline.items():
-            if data.startswith(ln, pos) and (best is None or len(ln) > len(best[1])):
-                cand = [i for i in ids if i not in used and i not in mine] or [i for i in ids if i not in mine] or ids
-                best = (cand[0], ln)
-        if best is None:
-            return None
-        mine.add(best[0])
-        out.append(best[0])
-        pos += len(best[1])
+    while pos < n:
+        ln = best[pos][1]
+        ids = byline[ln]
+        cand = [i for i in ids if i not in used and i not in mine] or [i for i in ids if i not in mine] or ids
+        mine.add(cand[0])
+        out.append(cand[0])
+        pos += len(ln)
     return out
 
 
@@ -336,7 +355,10 @@ def analyse(case, obs):
     atts = []
     used = set()
     okres = set(j for j, r in enumerate(results) if r.startswith("k"))
-    for (opi, data, out) in log:
+    last_of = {}
+    for k, (opi, _, _) in enumerate(log):
+        last_of[opi] = k
+    for k, (opi, data, out) in enumerate(log):
         # an attempt made during operation opi can only carry metrics emitted so far; among metrics with
         # identical bytes prefer those whose emit was acknowledged (the others must never be written, and
         # identical bytes cannot tell them apart)
@@ -347,7 +369,13 @@ def analyse(case, obs):
                 [i for i, m in big.items() if m == data and i <= opi]
         ids = segment(data, avail, used)
         kind = None
-        if ids is not None and len(data) <= cap:
+        if ids is not None and len(data) <= cap and opi in big and big[opi] == data and last_of[opi] == k:
+            # the bytes are both this operation's own oversized metric and the line(s) of earlier metrics (a metric may
+            # END in the terminator): identical bytes cannot tell the two apart.  The writer flushes what is buffered
+            # before it passes an oversized metric through, so the LAST write of the operation is read as the metric
+            # itself and any earlier one as buffered lines
+            kind = ("alone", opi)
+        elif ids is not None and len(data) <= cap:
             kind = ("lines", ids)
             if out == "o":
                 used.update(ids)
@@ -374,8 +402,11 @@ def clause_no_panic(a):
     return None
 
 
-def clause_conserve(a, faults):
-    """C06 / C07: acknowledged <=> written exactly once, in order; errors lose only their own metric"""
+def clause_conserve(a, faults, c06_under_faults=False):
+    """C06 / C07: acknowledged <=> written exactly once, in order; errors lose only their own metric.
+    c06_under_faults: the clauses of C06 that speak about failing writes too (c06_flush_point, c06_flush_idem,
+    c06_own_emit are proved for every fault script): exactly once, order, own emit, "a flush that returns Ok has written
+    everything acknowledged before it", "flushing again writes nothing" - without C07's clauses about what an error means"""
     ops, results = a["ops"], a["results"]
     if len(results) != len(ops):
         return "only %d results for %d operations" % (len(results), len(ops))
@@ -389,7 +420,7 @@ def clause_conserve(a, faults):
             else:
                 failed.append(j)
         # every result is Ok or the error of an attempt made during that very operation
-        if not r.startswith("k"):
+        if not r.startswith("k") and not c06_under_faults:
             errs = [at["out"] for at in a["atts"] if at["op"] == j and at["out"] != "o"]
             if not faults:
                 return "operation %d failed (%s) although the underlying writer never fails" % (j, r)
@@ -418,7 +449,7 @@ def clause_conserve(a, faults):
     for i, c in count.items():
         if c > 1:
             return "metric %d was written %d times" % (i, c)
-    for i in failed:
+    for i in ([] if c06_under_faults else failed):
         if count.get(i) and (i in a["big"] or a["lines"][i]):
             return "emit %d returned an error but its metric was written" % i
     for i in count:
@@ -426,6 +457,8 @@ def clause_conserve(a, faults):
             return "metric %d written but never emitted" % i
     # order of the metrics that fit
     fit_acked = [i for i in acked if i in a["fits"] and a["lines"][i]]
+    if c06_under_faults:
+        sent = [i for i in sent if i in acked]       # what became of refused emits is C07's business
     if sent != [i for i in fit_acked if i in count]:
         return "buffered metrics left in order %s, acknowledged in order %s" % (sent, fit_acked)
     # oversized acknowledged metrics were written (during their own emit, checked above)
@@ -554,6 +587,7 @@ CLAUSES = {
     "C05": lambda a: clause_frame(a),
     "C06": lambda a: clause_no_panic(a) or clause_frame(a) or clause_conserve(a, False),
     "C07": lambda a: clause_no_panic(a) or clause_frame(a) or clause_conserve(a, True),
+    "C06f": lambda a: clause_no_panic(a) or clause_frame(a) or clause_conserve(a, True, True),
     "C19": lambda a: clause_frame(a) or clause_greedy(a),
 }
 
@@ -661,14 +695,14 @@ def run_writer_check(prop, tier, seed, faults, design_ref):
             rep.violation_noinput("correspondence run failed (CW family)", {"error": str(e)})
             return rep.finish()
         for (wc, wm), o in zip(src, cimpl):
-            if o.startswith("R:") and "|L:" in o and (faults or wc.split()[4] == "-"):
+            if o.startswith("R:") and "|L:" in o:
                 # the property's own clauses on what the client-level run did (the client does not report byte counts:
                 # an Ok emit stands for Ok(len))
                 wops = wc.split()[3].split(",") if wc.split()[3] != "-" else []
                 rr = o.split("|L:")[0][2:].split(",")
                 full = ",".join(("k%d" % (len(unhex(wops[j][1:])) if j < len(wops) and wops[j][0] == "E" else 0)) if x == "k" else x
                                 for j, x in enumerate(rr))
-                v = _check_one((prop, wc, "R:" + full + "|L:" + o.split("|L:")[1]))
+                v = _check_one((prop if (faults or wc.split()[4] == "-") else "C06f", wc, "R:" + full + "|L:" + o.split("|L:")[1]))
                 if v:
                     cw_fail.append((case_size(wc), "C" + wc, o, "through the client: " + v))
                     continue
@@ -700,6 +734,19 @@ def run_writer_check(prop, tier, seed, faults, design_ref):
                 if pid == "C19":
                     cw_fail.append(((0, len(c), 0), c, o, msg))
         rep.cov["stats_sample_cases"] = len(scs)
+    if prop == "C06":
+        # the real buffered UDP sink and a metric no datagram can carry: Ok means written, whole, during its own emit
+        from . import sock as sock_driver
+        uos = ["UO 32", "UO 512", "UO 1432"]
+        try:
+            uoi = common.run_harness("sock", uos, shards=1)
+        except common.CheckFailure as e:
+            uoi = ["HARNESS-PANIC " + str(e)[:200]] * len(uos)
+        for c, o in zip(uos, uoi):
+            for pid, msg in sock_driver.judge(c, o):
+                if pid == "C06":
+                    cw_fail.append(((0, len(c), 0), c, o, msg))
+        rep.cov["oversized_udp_cases"] = len(uos)
     if prop == "C07":
         # the real buffered UDP sink over a socket connected to a closed port: the OS refuses every other send
         # (ECONNREFUSED); every emit and flush must return (Ok or the socket's error), nothing may hang or be duplicated
